@@ -231,6 +231,12 @@ def write_evidence(pid, tier, seed, results, wall, viol_n, mod, known_hit):
         for k, v in r.get("outcomes", {}).items():
             outcomes[k] = outcomes.get(k, 0) + v
     extra = getattr(mod, "EVIDENCE", {})
+    ran = {r["name"] for r in results}
+    allc = _cases(mod, pid, tier, seed)
+    ovp = os.path.join(VERIF, "harness", "attempt_overrides.json")
+    ov = json.load(open(ovp)).get(pid, {}) if os.path.exists(ovp) else {}
+    attempt_only = {c.name: ov.get(c.name, "built, not decided within budget on the unchanged tree") for c in allc if tuple(c.tiers) == ("attempt",)}
+    other_tier = sorted(c.name for c in allc if c.name not in ran and c.name not in attempt_only)
     ev = {
         "property_id": pid,
         "tier": tier,
@@ -259,7 +265,10 @@ def write_evidence(pid, tier, seed, results, wall, viol_n, mod, known_hit):
                        "outcomes": r.get("outcomes"), **({"detail": r["detail"]} if "detail" in r else {})} for r in results],
             "functions_encoded": extra.get("functions", []),
             "bounds": extra.get("bounds", ""),
-            "outside": extra.get("outside", ""),
+            "outside": extra.get("outside", "") + ("; the cases listed under not_claimed_attempt_tier were built but are not decided on the unchanged tree: "
+                                                   "whatever 'bounds' says about them is NOT part of the claim" if attempt_only else ""),
+            "not_claimed_attempt_tier": attempt_only,
+            "cases_only_in_other_tier": other_tier,
             "source_files": loader.source_files(),
             "inconclusive": incon,
             "bug_hunt_only": {"searched": sum(r.get("hunted", 0) for r in results), "not_refuted": sum(r.get("not_refuted", 0) for r in results),
